@@ -69,7 +69,7 @@ func (l layout) lit() string {
 
 // patByte is the position-dependent filler (IBBCases.v pat_byte): any misplaced read
 // or write shows up as different bytes.
-func patByte(i uint64) byte { return byte((i * 2654435761) >> 13) }
+func patByte(i uint64) byte { return byte(i + i>>8 + i>>16) }
 
 func patFill(b []byte, from, to int) {
 	for i := from; i < to; i++ {
